@@ -824,7 +824,7 @@ def cases(tier, rng):
             depth = dq if tier == "quick" else dt
             for path in enum_paths(skel, alphabet, depth):
                 yield dict(skel, mode="deferred", ops=path)
-    nrand = 4000 if tier == "quick" else 80000
+    nrand = 4000 if tier == "quick" else 50000
     for i in range(nrand):
         yield rand_case(rng, natural=(i % 3 == 2))
 
